@@ -167,8 +167,14 @@ def load_table(unit_name):
 
 
 def spec_text(unit_name):
+    """contracts/<unit>.rs, preceded by the shared spec files named in the table's INCLUDES"""
+    out = ""
+    tab_path = os.path.join(C.VERIF, "contracts", unit_name + ".py")
+    if os.path.exists(tab_path):
+        for inc in getattr(load_table(unit_name), "INCLUDES", []):
+            out += open(os.path.join(C.VERIF, "contracts", inc + ".rs")).read() + "\n"
     path = os.path.join(C.VERIF, "contracts", unit_name + ".rs")
-    return open(path).read() if os.path.exists(path) else ""
+    return out + (open(path).read() if os.path.exists(path) else "")
 
 
 def statements_of(fn, lo, hi):
@@ -272,14 +278,40 @@ def annotate_fn(sp, fn, spec, obligations, prefix, probe=None):
     # vacuity probes: an `assert(false)` that MUST fail. probe = {"which": "start" | <loop ordinal>, "tags": [...]}
     # (one probe per function and variant: a failed assert is assumed afterwards and would mask later probes)
     if probe is not None and probe["which"] == "start":
-        sp.after_tok(ts[fn.body_open], " assert(false); ", "probe:start:%s" % prefix)
-        probe["tags"].append("probe:start:%s" % prefix)
+        if not spec.get("tail_from"):
+            sp.after_tok(ts[fn.body_open], " assert(false); ", "probe:start:%s" % prefix)
+            probe["tags"].append("probe:start:%s" % prefix)
     names, bind_stmts = role_names(fn)
     need = set(re.findall(r"\$(?:ret|x\d+)", repr(spec)))
     missing = [n for n in need if n not in names]
     if missing:
         raise C.LostAnchor("%s: cannot resolve %s (no such extract binding / tail identifier)" % (fn.name, ", ".join(sorted(missing))))
     spec = _subst(spec, names)
+    tf = spec.get("tail_from")
+    if tf:
+        # R6 (tail extraction): the statements of the body from the first top-level statement matching tf["match"]
+        # to the end become a function of their own; everything before (signature + prefix statements) is replaced by
+        # tf["header"] (a new signature over the variables live at that point, with the contract). The kept statements
+        # are copied verbatim; rustc rejects the unit (tool error, never an alarm) if they use anything not in the header.
+        hit = None
+        for (x, y) in statements_of(fn, fn.body_open + 1, fn.body_close):
+            if re.search(tf["match"], fn.src[ts[x].start:ts[y].end]):
+                hit = (x, y)
+                break
+        if hit is None:
+            raise C.LostAnchor("%s: no top-level statement matching /%s/ (tail extraction)" % (fn.name, tf["match"]))
+        head = tf["header"].rstrip() + "\n"
+        if spec.get("start"):
+            head += spec["start"].rstrip() + "\n"
+        sp.rewrite(fn.start, ts[hit[0]].start, head, "ob:post:%s" % prefix)
+        if probe is not None and probe["which"] == "start":
+            sp.before_tok(ts[hit[0]], " assert(false); ", "probe:start:%s" % prefix)
+            probe["tags"].append("probe:start:%s" % prefix)
+        obligations.append(("post:%s" % prefix, "tail of %s from `%s`: %s" % (fn.name, tf["match"], " ".join(tf["header"].split())[:260])))
+        spec = dict(spec)
+        spec.pop("start", None)
+        spec.pop("contract", None)
+        spec["attrs"] = []
     for a in spec.get("attrs", []):
         U.add_attr(sp, a, "attr:" + a.strip("#[]").split("::")[-1])
     if spec.get("contract"):
@@ -403,6 +435,49 @@ def build(ctx, unit_name, only=None, probe=None):
     probe: a list that receives the tags of the inserted vacuity probes (probe variant of the unit)."""
     tab = load_table(unit_name)
     u = U.Unit(unit_name)
+    if getattr(tab, "STANDALONE", False):
+        # STANDALONE = True: a unit over functions that use no parse-tree type (no pt module, no generated spec, no ast items)
+        # STANDALONE = "pt": the parse-tree types only
+        if tab.STANDALONE == "pt":
+            u.raw(C.PRELUDE % {"features": getattr(tab, "FEATURES", ""), "uses": getattr(tab, "USES", "")}, "prelude")
+            C.add_pt_module(u, ctx)
+            u.raw("use crate::pt::*;\n", "prelude:paths")
+        else:
+            u.raw(getattr(tab, "FEATURES", "") + "\nuse vstd::prelude::*;\n" + getattr(tab, "USES", "") + "\nverus! {\n", "prelude")
+        text = spec_text(unit_name)
+        if "GET_LINE_NUMBER_CONTRACT" in text:
+            # the contract proved in unit lines, clause for clause
+            text = text.replace("GET_LINE_NUMBER_CONTRACT", [f for f in load_table("lines").FUNCTIONS if f["name"] == "get_line_number"][0]["contract"])
+        u.raw(text, "spec:unit")
+        if hasattr(tab, "extra_spec"):
+            u.raw(tab.extra_spec(ctx), "spec:generated:unit")
+        for it_spec in getattr(tab, "ITEMS", []):
+            cands = [it for it in ctx.items(it_spec["rel"]) if it.kind == it_spec["kind"] and it.name == it_spec["name"]]
+            if not cands:
+                raise C.LostAnchor("%s %s not found in %s" % (it_spec["kind"], it_spec["name"], it_spec["rel"]))
+            sp = U.Splice(cands[0])
+            U.add_external_derive(sp)
+            u.add_splice(sp)
+        obligations = []
+        for entry in tab.FUNCTIONS:
+            if only and entry["name"] not in only:
+                continue
+            rel = entry["rel"]
+            if rel == "@pt":
+                rel = os.path.join(ctx.solang["dir"], "src/pt.rs")
+            fn = ctx.fn(rel, entry["name"], entry.get("impl"))
+            sp = U.Splice(fn)
+            annotate_fn(sp, fn, entry, obligations, entry["name"], probe)
+            if entry.get("wrap"):
+                u.raw(entry["wrap"] + "\n", "wrap")
+            u.add_splice(sp)
+            if entry.get("wrap"):
+                u.raw("}\n", "wrap")
+        for lem in getattr(tab, "LEMMAS", []):
+            obligations.append(("lemma:%s" % lem[0], lem[1]))
+        u.raw(C.EPILOGUE, "epilogue")
+        u.obligations = obligations
+        return u
     feats = getattr(tab, "FEATURES", "#![feature(pattern)]")
     u.raw(C.PRELUDE % {"features": feats, "uses": getattr(tab, "USES", "")}, "prelude")
     C.add_pt_module(u, ctx)
